@@ -384,8 +384,14 @@ FILES = ["f.bin", "g.dat", "img_0", "z", "notes"]
 
 @st.composite
 def tree_s(draw):
-    n = draw(st.integers(0, 7))
+    # a quarter of the trees hold top-level files whose names merely look like archives to a careless test (upper / mixed case
+    # suffix): for the library they are plain files, a folder dominated by them is a plain folder
+    odd = draw(st.sampled_from([0, 0, 0, 0, 0, 1, 2]))
+    n = draw(st.integers(0, 7 if odd == 0 else 2))
     out, seen = [], set()
+    for name in ["B.ZIP", "x.Zip"][:odd]:
+        seen.add(name)
+        out.append([name, draw(st.integers(0, 99)), draw(st.sampled_from([0, 7, 300]))])
     for _ in range(n):
         depth = draw(st.integers(0, 2))
         parts = [draw(st.sampled_from(NAMES)) for _ in range(depth)] + [draw(st.sampled_from(FILES))]
